@@ -157,6 +157,13 @@ def _run_chunk(binary, lines, timeout):
                 status = "hang timeout"
                 hangs += 1
                 break
+        if got == len(chunk) and status is None:
+            # every answer is in: let the process see end of input and exit by itself (profile data of a
+            # coverage build is written at exit)
+            try:
+                p.wait(timeout=5)
+            except Exception:
+                pass
         try:
             p.kill()
         except Exception:
